@@ -20,7 +20,7 @@ EXHAUSTIVE_NOTE = "ASCII-in-host table and the NFKC-delimiter set (computed from
 ASSUMPTIONS = ["grammar validation of hosts given to the constructor / build(authority=) is not demanded beyond the NFKC screen", "case of an IPv6 zone id is kept"]
 
 REGNAME_OK = re.compile(r"(?:[a-z0-9\-._~!$&'()*+,;=]|%[0-9a-f]{2})*\Z")
-ROUTES = ["ctor", "build.host", "build.authority", "with_host", "ctor.defaultport", "ctor.userinfo", "with_host.defaultport"]
+ROUTES = ["ctor", "build.host", "build.authority", "with_host", "ctor.defaultport", "ctor.userinfo", "with_host.defaultport", "with_host.same-enc", "with_host.same-ctor"]
 
 
 def make(Y, route, text):
@@ -34,6 +34,11 @@ def make(Y, route, text):
         return Y.URL.build(scheme="http", authority=text, path="/p")
     if route == "with_host":
         return Y.URL("http://x.example/p").with_host(bare)
+    if route == "with_host.same-enc":
+        # the URL already stores exactly this (possibly non-canonical / hostile) host text verbatim
+        return Y.URL("http://%s/p" % text, encoded=True).with_host(bare)
+    if route == "with_host.same-ctor":
+        return Y.URL("http://%s/p" % text).with_host(bare)
     if route == "ctor.defaultport":
         return Y.URL("http://%s:80/p" % text)
     if route == "ctor.userinfo":
@@ -94,7 +99,7 @@ def check_host(ctx, backend, route, text):
         br = "[%s]" % rh
         ctx.check(u.host_subcomponent == br and ("//" + br) in str(u).replace("@", "//") and u.host_port_subcomponent.startswith(br), "IPv6 host is not bracketed everywhere",
                   observed=[u.host_subcomponent, u.host_port_subcomponent, str(u)], expected=br, entry=route)
-    if route in ("build.host", "with_host", "with_host.defaultport") and ":" not in rh:
+    if route in ("build.host", "with_host", "with_host.defaultport", "with_host.same-enc", "with_host.same-ctor") and ":" not in rh:
         ctx.check(REGNAME_OK.match(rh) is not None, "build(host=)/with_host() stored a host outside the reg-name grammar", observed=info, expected="reg-name or IP literal", entry=route)
     # idempotence
     try:
@@ -119,6 +124,12 @@ def check_hostile(ctx, backend, route, text, where):
     try:
         if where == "host":
             u = make(Y, route, text)
+        elif where == "userinfo-bracketed":
+            u = Y.URL("http://%s@[::1]/p" % text) if route == "ctor" else Y.URL.build(scheme="http", authority="%s@[fe80::1%%eth0]:81" % text)
+        elif where == "preport-bracketed":
+            u = Y.URL("http://[::1]%s8080/p" % text) if route == "ctor" else Y.URL.build(scheme="http", authority="u@[v1.x]%s80" % text)
+        elif where == "in-brackets":
+            u = Y.URL("http://[v1.fe%s80]/p" % text) if route == "ctor" else Y.URL.build(scheme="http", authority="[::1%%%s]" % text)
         elif where == "userinfo":
             u = Y.URL("http://%s@h.example/p" % text) if route == "ctor" else Y.URL.build(scheme="http", authority="%s@h.example" % text)
         else:
@@ -143,7 +154,7 @@ def check_ascii(ctx, backend, route, ch):
     ctx.case(True, label="ascii/" + route, key=(route, ch, backend))
     allowed = c in "abcdefghijklmnopqrstuvwxyzABCDEFGHIJKLMNOPQRSTUVWXYZ0123456789-._~!$&'()*+,;="
     for text in ("a" + c + "b", c + "b", "a" + c):
-        if route in ("ctor", "build.authority") and c in "/?#@:[]\\\t\r\n":
+        if route in ("ctor", "build.authority", "with_host.same-enc", "with_host.same-ctor") and c in "/?#@:[]\\\t\r\n":
             continue  # would end / restructure the authority: another input, decided by C07
         try:
             u = make(Y, route, text)
@@ -153,7 +164,7 @@ def check_ascii(ctx, backend, route, ch):
             continue
         except Exception:  # noqa: BLE001
             continue
-        if route in ("build.host", "with_host") and not allowed and c != "%":
+        if route in ("build.host", "with_host", "with_host.same-enc") and not allowed and c != "%":
             ctx.check(False, "build(host=)/with_host() accepted an ASCII character outside the reg-name grammar", observed={"text": text, "str": str(u)}, expected="ValueError", entry=route)
         rh = u.raw_host
         if rh is not None:
@@ -175,7 +186,7 @@ def nfkc_delims():
 
 
 def tables(ctx, backend):
-    for route in ROUTES[:4]:
+    for route in ROUTES[:4] + ["with_host.same-enc", "with_host.same-ctor"]:
         for ch in range(128):
             ctx.run("ascii", backend=backend, route=route, ch=ch)
     cps = nfkc_delims()
@@ -189,6 +200,8 @@ def tables(ctx, backend):
             for text in (c, "u" + c + "p"):
                 ctx.run("hostile", backend=backend, route=route, text=text, where="userinfo")
                 ctx.run("hostile", backend=backend, route=route, text=text, where="preport")
+                for where in ("userinfo-bracketed", "preport-bracketed", "in-brackets"):
+                    ctx.run("hostile", backend=backend, route=route, text=text, where=where)
 
 
 def generated(ctx, backend, n):
